@@ -14,5 +14,8 @@ for n in range(0, 13):
     out.append('    state_n%d [16] => lexer_state_contract::<%d>(&any(), any(), any(), any());' % (n, n))
     out.append('    bump_twin_n%d [16] => bump_invalid_contract::<%d>(&any(), any(), any(), any());' % (n, n))
 out.append('    bump_str [16] => bump_str_contract(any(), any());')
+out.append('    find_boundary_str [8] => find_boundary_str_contract(any());')
+for n in (0, 1, 5):
+    out.append('    find_boundary_bytes_n%d [8] => find_boundary_bytes_contract::<%d>(&any(), any());' % (n, n))
 out.append('}')
 open(sys.argv[1] if len(sys.argv) > 1 else 'src/harness_list.rs', 'w').write('\n'.join(out) + '\n')
